@@ -301,11 +301,13 @@ func (e *handlerStore[T]) onSubEvent(handler T) {
 
 func (e *handlerStore[T]) offSubEvent(handler T) {
 	e.mu.Lock()
-	for i, sub := range e.subs {
-		if sub == handler {
-			e.subs = append(e.subs[:i], e.subs[i+1:]...)
+	kept := make([]T, 0, len(e.subs))
+	for _, sub := range e.subs {
+		if sub != handler {
+			kept = append(kept, sub)
 		}
 	}
+	e.subs = kept
 	e.mu.Unlock()
 }
 
@@ -331,25 +333,27 @@ func (e *handlerStore[T]) off(handler ...T) {
 		return
 	}
 
-	remove := func(slice []T, s int) []T {
-		return append(slice[:s], slice[s+1:]...)
-	}
-
-	for i, h := range e.funcs {
-		for _, _h := range handler {
-			if h == _h {
-				e.funcs = remove(e.funcs, i)
+	// Filter into a new slice: removing from a slice while ranging over it
+	// skips elements and can slice out of bounds.
+	remove := func(slice []T) []T {
+		kept := make([]T, 0, len(slice))
+		for _, h := range slice {
+			named := false
+			for _, _h := range handler {
+				if h == _h {
+					named = true
+					break
+				}
+			}
+			if !named {
+				kept = append(kept, h)
 			}
 		}
+		return kept
 	}
 
-	for i, h := range e.funcsOnce {
-		for _, _h := range handler {
-			if h == _h {
-				e.funcsOnce = remove(e.funcsOnce, i)
-			}
-		}
-	}
+	e.funcs = remove(e.funcs)
+	e.funcsOnce = remove(e.funcsOnce)
 }
 
 func (e *handlerStore[T]) offAll() {
@@ -415,21 +419,30 @@ func (e *eventHandlerStore) off(eventName string, handler ...reflect.Value) {
 		return
 	}
 
-	remove := func(slice []*eventHandler, s int) []*eventHandler {
-		return append(slice[:s], slice[s+1:]...)
-	}
-
-	events, ok := e.events[eventName]
-	if ok {
-		for i, event := range events {
+	// Filter into a new slice: removing from a slice while ranging over it
+	// skips elements and can slice out of bounds.
+	remove := func(slice []*eventHandler) []*eventHandler {
+		kept := make([]*eventHandler, 0, len(slice))
+		for _, event := range slice {
+			named := false
 			for _, h := range handler {
 				ep := event.rv.Pointer()
 				hp := h.Pointer()
 				if ep == hp {
-					events = remove(events, i)
+					named = true
+					break
 				}
 			}
+			if !named {
+				kept = append(kept, event)
+			}
 		}
+		return kept
+	}
+
+	events, ok := e.events[eventName]
+	if ok {
+		events = remove(events)
 		if len(events) == 0 {
 			delete(e.events, eventName)
 		} else {
@@ -439,15 +452,7 @@ func (e *eventHandlerStore) off(eventName string, handler ...reflect.Value) {
 
 	eventsOnce, ok := e.eventsOnce[eventName]
 	if ok {
-		for i, event := range eventsOnce {
-			for _, h := range handler {
-				ep := event.rv.Pointer()
-				hp := h.Pointer()
-				if ep == hp {
-					eventsOnce = remove(eventsOnce, i)
-				}
-			}
-		}
+		eventsOnce = remove(eventsOnce)
 		if len(eventsOnce) == 0 {
 			delete(e.eventsOnce, eventName)
 		} else {
